@@ -424,6 +424,7 @@ structure DomainParts (r : Response) : Prop where
   zsk : policyOk r.zskPolicy = true
   bundlesNe : r.bundles ≠ []
   bundles : ∀ b ∈ r.bundles, bundleOk b = true
+  sorted : bundlesSorted r.bundles = true
 
 theorem domain_parts (r : Response) (h : WriterDomain r) : DomainParts r := by
   simp only [WriterDomain, writerDomain, Bool.and_eq_true, List.all_eq_true, Bool.not_eq_true',
